@@ -955,6 +955,33 @@ def _c_zero_next_then_truncate(units, rng, **kw):
     return bytes(out[:cut])
 
 
+def _c_later_sequence_bad_prefix(units, rng, corpus=None, **kw):
+    """one or two further sequences are appended; the first parse_info of an
+    appended sequence has a corrupted prefix, framing otherwise intact"""
+    data = b"".join(bytes(u) for u in units)
+    extra = []
+    for _ in range(rng.choice([1, 1, 2])):
+        if corpus and rng.random() < 0.6:
+            extra.append(bytearray(rng.choice(corpus)[1]))
+        else:
+            extra.append(bytearray(b"".join(bytes(units[i]) for i in _first_sequence(units))))
+    hit = rng.randrange(len(extra))
+    for i, e in enumerate(extra):
+        if len(e) < 4:
+            return None
+        if i == hit or rng.random() < 0.3:
+            how = rng.random()
+            if how < 0.5:
+                e[rng.randrange(4)] ^= 1 << rng.randrange(8)
+            elif how < 0.75:
+                e[0:4] = bytes(4)
+            elif how < 0.9:
+                e[0:4] = _rbytes(rng, 4)
+            else:
+                e[0:4] = b"\xff\xff\xff\xff"
+    return data + b"".join(bytes(e) for e in extra)
+
+
 def _c_version_change(units, rng, **kw):
     """every sequence header of the stream gets the same other major_version
     (presets / parse codes / profile that the version does not support; version
@@ -1014,6 +1041,7 @@ COORDINATED_OPS = [
     ("drop-or-repeat-picture", _c_drop_or_repeat_picture, 5),
     ("zero-next+truncate", _c_zero_next_then_truncate, 3),
     ("version-change", _c_version_change, 6),
+    ("later-sequence-bad-prefix", _c_later_sequence_bad_prefix, 6),
 ]
 
 
